@@ -173,3 +173,17 @@ check(
     "Isolation by re-execution from fresh inputs with reset counters; every reported difference is confirmed inside one execution. Value-preserving identity changes (operand sharing by ==, cache fill/drop) are not violations. The deepest level uses the stated core alphabets.",
     "DESIGN.md 3 C27",
 )
+check(
+    "C13",
+    "exhaustive pair/triple enumeration of a one-datum-varied expression/form universe built twice (all ordered pairs under ==), per-object pickle/eval-repr/foreign-interpreter round trips, and all comparison-event histories (length <= 3/4) over rebuilt pools",
+    "Every expression of the recipe grammar (135 one-datum-varied terminals, full operator level 1, comb level 2; thorough level 3) built twice, and every Integral/Form of the product alphabet: == / .equals on ALL ordered pairs (4e8 quick), equivalence laws incl. all triples, implications to hash, repr, str, shape, indices, signature and reference value, repr => ==; pickle, eval(repr) and foreign-hash-seed pickle round trips per object; all sequences of comparison events over four pools rebuilt per history compared observationally with the untouched pool.",
+    "Value law on one cell/facet/interior-facet environment; BaseFormOperator reprs are not treated as eval-able; FormSum/Action/Adjoint/Matrix/Cofunction outside the alphabet; harness subclasses with a legal constant hash provide hash-colliding unequal operands.",
+    "DESIGN.md 3 C13",
+)
+check(
+    "C29",
+    "complete cmp_expr sign matrix over a recipe-generated universe (1.8k/5.9k expressions) in 3 index/label numberings; preorder laws on all triples by boolean matrix products; all unordered pairs through +, *, inner in both orders",
+    "All ordered pairs and all ordered triples of the stated universe (63 terminals incl. same-count coefficients on different spaces, counts across 9/10/99/100, arguments with/without parts, zeros with free indices, base form operators; levels [60,560,1194] quick) are compared by the real cmp_expr in three numbering worlds: totality, reflexivity, antisymmetry, transitivity of < and of the 0-class, consistency, ties only between operands indistinguishable without index/label numbers, same sign in all worlds; all unordered pairs give structurally equal a+b / a*b / inner (up to the promised Conj) in both orders; sorted_expr and triple constructors on stated reduced universes.",
+    "Operands differing only in the pattern of index identities are excused (counted). Structural equality is UFL's ==, cross-checked by repr. PYTHONHASHSEED fixed by ./check.",
+    "DESIGN.md 3 C29",
+)
